@@ -261,6 +261,16 @@ func TestVfC12Edns(t *testing.T) {
 				if opt.Class < 512 {
 					t.Fatalf("response OPT advertises UDP size %d; %s", opt.Class, desc)
 				}
+				// The fixed fields of the response OPT are the proxy's own statement: its upper RCODE bits are part of the
+				// RCODE an EDNS client reads (RFC 6891 6.1.3), and the version is the one the proxy speaks (0). Whatever the
+				// client (or the upstream) put there must not come back. (The DO/Z flag bits are left alone: copying DO is
+				// permitted.)
+				if ext := opt.TTL >> 24; ext != 0 {
+					t.Fatalf("the response OPT carries extended RCODE bits %#x: an EDNS client reads RCODE %d where the proxy answered %d; %s", ext, int(ext)<<4|r.Msg.Rcode(), r.Msg.Rcode(), desc)
+				}
+				if ver := (opt.TTL >> 16) & 0xff; ver != 0 {
+					t.Fatalf("the response OPT claims EDNS version %d; %s", ver, desc)
+				}
 				sizes[opt.Class] = true
 				if len(sizes) > 1 {
 					t.Fatalf("the advertised UDP size is not a constant of the proxy: seen %v; %s", sizes, desc)
